@@ -3,7 +3,7 @@
    witnesses of the refutation theorems (closed computations checked by the kernel). *)
 From Coq Require Import PrimFloat ZArith List Bool Lia.
 Import ListNotations.
-Require Import PyBase Solver SolverFacts SolverF SolveAll Tracer TracerSolve TracerFacts TracerFacts2 TracerF.
+Require Import PyBase Solver SolverFacts SolverF SolveAll Tracer TracerSolve TracerLinked TracerFacts TracerFacts2 TracerF.
 Open Scope Z_scope.
 
 (* ---------------- the scripted oracles keep the shape of the store: the premise of C17 is met by every script *)
@@ -309,3 +309,13 @@ Example tx_direct_trace_t :
   /\ trace_period_M float tx_cfg (TName 1) false Z (locate_index tx_span) 2002 LEnd (vals_of tx_state) tx_tr0
      = ([tx_e; tx_e; mkTrace [1%nat] [LEnd] [[4%float]]], None).
 Proof. repeat split; vm_compute; reflexivity. Qed.
+
+(* ---------------- a traced model inside a linker: three linker passes over the scripted submodel at period 1 record the
+   labels 1, 2, 3 (no start / before / 0 / end) and leave the values the plain passes leave *)
+Example tx_linked :
+  linked_passes float tx_cfg (TName 0) false (s_ev 3 tx_scripts) 1 ERaise false 1 3 (vals_of tx_state) tx_tr0
+  = (([[0%float; 1.5%float; 0%float]; [2%float; 3%float; 4%float]],
+      [tx_e; mkTrace [0%nat] [LIter 1; LIter 2; LIter 3] [[1%float]; [1.5%float]; [1.5%float]]; tx_e]), None)
+  /\ plain_passes float (s_ev 3 tx_scripts) 1 ERaise false 1 3 (vals_of tx_state)
+     = ([[0%float; 1.5%float; 0%float]; [2%float; 3%float; 4%float]], None).
+Proof. split; vm_compute; reflexivity. Qed.
